@@ -184,6 +184,19 @@ def slice_to_position(F, root, n):
 
 # ------------------------------------------------------------------------------------------------ P: panic inventory
 
+def alpha(n):
+    """pretty-printed expression with local variable names replaced by positional placeholders ($0, $1, ..) in order of
+    first occurrence, so that renaming a local does not change the shape"""
+    txt = tir.pretty(n)
+    names = []
+    for x in tir.walk(n):
+        if x.get("k") == "Path" and x.get("res") == "local" and x.get("name") not in names:
+            names.append(x["name"])
+    for i, nm in enumerate(names):
+        txt = re.sub(r"(?<![\w.:$])%s(?![\w:(])" % re.escape(nm), "$%d" % i, txt)
+    return txt
+
+
 def site_shape(s, sidx):
     """operand shape of a site: the typed expression it belongs to, pretty-printed (stable under unrelated edits)"""
     t = s["term"]
@@ -193,7 +206,7 @@ def site_shape(s, sidx):
             continue
         for o, n in near(sidx, tuple(key)):
             if n.get("k") in want:
-                return tir.pretty(n)[:120]
+                return alpha(n)[:120]
     what = s["what"].split(" -> ")[0]
     return re.sub(r"::<[^>]*>", "", what).split("::")[-1]
 
@@ -310,23 +323,24 @@ def chk_payloads_game_end(F, G):
 
 
 def chk_dup_end_guard(F, G):
-    """`buf[0]` in read() is the right operand of `len == 1 + .. && buf[0] == ..` with buf = vec![0; len]"""
+    """`B[0]` in read() is the right operand of `L == 1 + .. && B[0] == ..` with B = vec![0; L]"""
     b = F.body("io::slippi::de::read")
     if b is None:
         return False
-    for n in tir.walk(b["tir"]["value"]):
+    root = b["tir"]["value"]
+    lets = {n["pat"]["id"]: n for n in tir.walk(root) if n.get("k") == "Let" and n["pat"].get("k") == "Bind"}
+    for n in tir.walk(root):
         if n.get("k") == "Binary" and n.get("op") == "And":
             l, r = strip(n["l"]), strip(n["r"])
-            idx = [x for x in tir.walk(r) if x.get("k") == "Index" and tir.lit_int(x["index"]) == 0 and tir.place(x["base"]) == "buf"]
-            if idx and l.get("k") == "Binary" and l.get("op") == "Eq" and tir.place(l["l"]) == "len":
+            idx = [x for x in tir.walk(r) if x.get("k") == "Index" and tir.lit_int(x["index"]) == 0 and strip(x["base"]).get("res") == "local"]
+            if idx and l.get("k") == "Binary" and l.get("op") == "Eq":
+                bl = lets.get(strip(idx[0]["base"]).get("id"))
+                ll = strip(l["l"])
                 rr = strip(l["r"])
-                if rr.get("k") == "Binary" and rr.get("op") == "Add" and tir.lit_int(rr["l"]) == 1:
-                    # buf = vec![0; len]
-                    for s in tir.walk(b["tir"]["value"]):
-                        if s.get("k") == "Let" and s["pat"].get("name") == "buf" and tir.in_macro(s["init"], "vec"):
-                            locs = [x.get("name") for x in tir.walk(s["init"]) if x.get("k") == "Path" and x.get("res") == "local"]
-                            if locs == ["len"]:
-                                return True
+                if bl is not None and tir.in_macro(bl["init"], "vec") and rr.get("k") == "Binary" and rr.get("op") == "Add" and tir.lit_int(rr["l"]) == 1:
+                    ids = [x.get("id") for x in tir.walk(bl["init"]) if x.get("k") == "Path" and x.get("res") == "local"]
+                    if ids == [ll.get("id")] and ll.get("res") == "local":
+                        return True
     return False
 
 
